@@ -56,7 +56,17 @@ func Register(ch *Check) { registry[ch.ID] = ch }
 
 func Registered() []string { return sortedKeys(registry) }
 
-const verifDir = "/verif"
+// verifDir is the framework directory: VERIF_DIR (exported by the check script: its own location),
+// default /verif.
+var verifDir = Dir()
+
+// Dir returns the framework directory.
+func Dir() string {
+	if d := os.Getenv("VERIF_DIR"); d != "" {
+		return d
+	}
+	return "/verif"
+}
 
 // Finding is one entry of known_findings.json.
 type Finding struct {
